@@ -82,7 +82,16 @@ def mutate(g, w, b, c, rec_handles):
     elif m == "add_record":
         return mutate_fallback(g, w, c)
     elif m == "add_ns":
-        w.add_ns(c, "mut%d" % r.randint(0, 9), "http://mutation/ns%d/" % r.randint(0, 99))
+        k = r.random()
+        regs = sorted(obj.get_registered_namespaces(), key=lambda n: n.prefix)
+        if regs and k < 0.3:
+            # a prefix the container already uses, for another URI: the clash is recorded in the manager's rename table
+            w.add_ns(c, r.choice(regs).prefix, "http://mutation/clash%d/" % r.randint(0, 9))
+        elif regs and k < 0.6:
+            # a second prefix for a URI the container already knows
+            w.add_ns(c, "alias%d" % r.randint(0, 9), r.choice(regs).uri)
+        else:
+            w.add_ns(c, "mut%d" % r.randint(0, 9), "http://mutation/ns%d/" % r.randint(0, 99))
     elif m == "set_default":
         cur = obj.get_default_namespace()
         w.set_default(c, cur.uri if cur is not None and g.chance(0.3) else "http://mutation/default/")
@@ -196,8 +205,16 @@ def make_case(ctx, g):
         ctx.count("derive-not-applicable:" + how)
         return w, fails
     ctx.count("derive:" + how)
+    import copy as _copy
+    ctrl = {}
+    if res[0] == "cont":
+        # controls: each side as it is now, cut loose from everything by a deep copy
+        ctrl = {res[1]: _copy.deepcopy(w.conts[res[1]]), res[2]: _copy.deepcopy(w.conts[res[2]])}
+    mutated_sides = set()
+    snapshot_alarm = False
     for _round in range(g.rng.randint(1, 3)):
         side = g.choice(["source", "derived"])
+        mutated_sides.add(side)
         if res[0] == "rec":
             _tag, c, h, nh = res
             src_obj, der_obj = w.recs[h], w.recs[nh]
@@ -232,8 +249,46 @@ def make_case(ctx, g):
         if changed:
             ctx.nontrivial(w.ops)
         if other_before != other_after:
+            snapshot_alarm = True
             fails.append(Failure("oracle", None, "after %s, mutating the %s (%s) changed the other side" % (how, side, m),
                                  {"ops": list(w.ops), "derive": how, "mutated": side}))
+    if res[0] == "cont":
+        # what a snapshot cannot show: does either side now *behave* differently? Both are asked to resolve names under the other's
+        # prefixes and to register the other's namespaces; the model, in which the two sides share nothing, predicts every answer
+        _tag, s, t = res
+        said = []           # every (prefix, uri) somebody has tried to register in this history, accepted as given or not
+        for op in w.ops:
+            if op["op"] == "add_ns" and (op["p"], op["u"]) not in said:
+                said.append((op["p"], op["u"]))
+        untouched = None
+        if len(mutated_sides) == 1 and not snapshot_alarm:
+            untouched = t if "source" in mutated_sides else s
+        for (asked, other) in ((s, t), (t, s)):
+            nss = [(n.prefix, n.uri) for n in sorted(w.conts[other].get_registered_namespaces(), key=lambda n: n.prefix)]
+            pool = said[-6:] + [x for x in nss if x not in said][:3]
+            twin = ctrl.get(asked) if asked == untouched else None
+            diffs = []
+            for (pfx, _u) in pool:
+                q = w.vqn(asked, "%s:probe" % pfx)
+                if twin is not None:
+                    q2 = twin.valid_qualified_name("%s:probe" % pfx)
+                    if proto.canon_q(q) != proto.canon_q(q2):
+                        diffs.append("'%s:probe' resolves to %s, in the copy to %s" % (pfx, proto.canon_q(q), proto.canon_q(q2)))
+            for (pfx, u) in g.rng.sample(pool, min(2, len(pool))):
+                n = w.add_ns(asked, pfx, u)
+                ctx.count("behaviour-probe")
+                if twin is not None:
+                    n2 = twin.add_namespace(Namespace(pfx, u))
+                    if (n.prefix, n.uri) != (n2.prefix, n2.uri):
+                        diffs.append("add_namespace(%r, %r) answers %s:%s, in the copy %s:%s" % (pfx, u, n.prefix, n.uri, n2.prefix, n2.uri))
+            if twin is not None:
+                ctx.count("twin-compared")
+                if not diffs and observe(w.conts[asked]) != observe(twin):
+                    diffs.append("content / declarations differ from the copy after the same probes")
+                if diffs:
+                    fails.append(Failure("oracle", None, "after %s, the %s side was left alone while the other was mutated, yet it no longer behaves like a "
+                                         "deep copy of itself taken before: %s" % (how, "derived" if asked == t else "source", "; ".join(diffs[:3])),
+                                         {"ops": list(w.ops), "derive": how, "mutated": sorted(mutated_sides)[0]}))
     for c in list(w.conts):
         if w.conts[c].is_document():
             w.obs(c)
